@@ -86,7 +86,7 @@ func (g *srvGen) off() uint32 { return g.s.E.S.VerifSnapshot().ReportsOffset }
 var capChoices = []uint64{1000, 12345, 1 << 40, 1 << 63, math.MaxUint64, 0, 100}
 
 func (g *srvGen) freshAuth(id uint32, k Key) glow.EquipmentAuthorization {
-	lats := []float64{38, -0.0, 0, 5e-324, -89.999, 8.9e307, 12.345678}
+	lats := []float64{38, -0.0, 0, 5e-324, -89.999, 8.9e307, 12.345678, 1e308, 1.7e308}
 	// the expiration is a signed field the server stores and never interprets: values in the past, at the
 	// current slot and at the ends of its range are as good as any other
 	exp := uint32(g.r.Next())
@@ -478,7 +478,9 @@ func (g *srvGen) opClock() {
 	off := int64(g.off())
 	now := int64(glow.CurrentTimeslot())
 	var c int64
-	switch r.pick([]int{40, 10, 10, 8, 6, 6, 4, 3}) {
+	switch r.pick([]int{40, 10, 10, 8, 6, 6, 4, 3, 3}) {
+	case 8:
+		c = off - 1 - int64(r.Intn(2500)) // the clock is set back to before the start of the stored window
 	case 0:
 		c = now + int64(r.Intn(30))
 	case 1:
@@ -521,7 +523,11 @@ func (g *srvGen) opBadHTTP() {
 		g.s.HTTP(m, p, bodies[r.Intn(len(bodies))])
 	case 1: // POST with a body that is no valid order
 		post := []string{"/api/v1/authorized-servers", "/api/v1/authorize-equipment", "/api/v1/equipment-migrate", "/api/v1/register-gca"}
-		g.s.HTTP("POST", post[r.Intn(len(post))], bodies[r.Intn(len(bodies))])
+		if r.Chance(50) {
+			g.s.HTTPChunked("POST", post[r.Intn(len(post))], bodies[1+r.Intn(len(bodies)-1)])
+		} else {
+			g.s.HTTP("POST", post[r.Intn(len(post))], bodies[r.Intn(len(bodies))])
+		}
 	default: // GET with a query the endpoint has to refuse
 		qs := []string{"/api/v1/all-device-stats", "/api/v1/all-device-stats?timeslot_offset=", "/api/v1/all-device-stats?timeslot_offset=abc",
 			"/api/v1/all-device-stats?timeslot_offset=-2016", "/api/v1/all-device-stats?timeslot_offset=99999999999999999999999",
@@ -573,10 +579,14 @@ func (g *srvGen) opStats() {
 func (g *srvGen) opAuthServer() {
 	r := g.r
 	k := detKey(g.seed, 500+r.Intn(3))
-	loc := []string{myIP, "", "example.org", strings.Repeat("a", 255), strings.Repeat("b", 256)}[r.Intn(5)]
+	loc := []string{myIP, "", "example.org", strings.Repeat("a", 255), strings.Repeat("b", 256), " " + myIP, myIP + "\n", "\t", myIP + " "}[r.Intn(9)]
 	as := server.AuthorizedServer{PublicKey: k.Pub, Banned: r.Chance(40), Location: loc, HttpPort: closedPortOnce(), TcpPort: uint16(r.Intn(65536)), UdpPort: uint16(r.Intn(65536))}
 	if loc != myIP {
 		as.HttpPort = 1 // an empty host means "this machine": never a port that another process may own
+	}
+	if as.Banned && r.Chance(35) {
+		// a ban that names nothing but the key: no address, no ports
+		as.Location, as.HttpPort, as.TcpPort, as.UdpPort = "", 0, 0, 0
 	}
 	as.GCAAuthorization = glow.Sign(as.SigningBytes(), g.signer(r.pick([]int{80, 8, 6, 6})))
 	if snap := g.s.E.S.VerifSnapshot(); len(snap.Servers) > 0 && r.Chance(20) {
@@ -624,6 +634,12 @@ func (g *srvGen) opMigrate() {
 		}
 		as.GCAAuthorization = glow.Sign(as.SigningBytes(), signer)
 		em.NewServers = append(em.NewServers, as)
+		if r.Chance(20) {
+			// the same server twice in one order: listed, then banned (both entries signed)
+			as.Banned = !as.Banned
+			as.GCAAuthorization = glow.Sign(as.SigningBytes(), signer)
+			em.NewServers = append(em.NewServers, as)
+		}
 	}
 	em.Signature = glow.Sign(em.SigningBytes(), g.signer(r.pick([]int{80, 8, 6, 6})))
 	if r.Chance(12) {
@@ -906,6 +922,15 @@ func (g *srvGen) opTear() error {
 	r := g.r
 	snap := g.s.E.S.VerifSnapshot()
 	dir := g.s.E.Dir
+	if r.Chance(12) {
+		return g.opStartFault()
+	}
+	if snap.GCAAvailable && r.Chance(12) {
+		return g.opDiskDamage()
+	}
+	if r.Chance(40) {
+		g.strayFiles()
+	}
 	if !snap.GCAAvailable && r.Chance(60) {
 		if err := g.s.E.Stop(); err != nil {
 			return err
@@ -973,17 +998,17 @@ func (g *srvGen) opTear() error {
 
 // weights per focus: dgram, authorize, clock, tick, restart, stats, sync, authserver, migrate, register, impact, rotate
 var focusWeights = map[string][]int{
-	"C01": {70, 6, 8, 2, 1, 3, 3, 1, 1, 1, 1, 1},
-	"C02": {75, 5, 6, 2, 1, 4, 3, 0, 2, 0, 1, 1},
-	"C03": {30, 6, 14, 8, 5, 22, 2, 0, 3, 0, 6, 4, 0, 1},
-	"C04": {30, 14, 10, 4, 18, 6, 3, 2, 2, 3, 2, 3, 0, 1},
-	"C06": {20, 45, 4, 1, 8, 4, 6, 1, 1, 2, 1, 1},
-	"C07": {6, 25, 2, 0, 12, 1, 2, 10, 8, 30, 0, 0},
-	"C12": {35, 10, 14, 5, 4, 10, 6, 6, 5, 3, 1, 1},
-	"C17": {5, 8, 2, 0, 5, 1, 8, 36, 30, 5, 0, 0},
-	"C13": {25, 10, 8, 3, 3, 6, 6, 3, 3, 1, 2, 2, 28},
-	"C05": {30, 12, 10, 4, 8, 4, 2, 1, 1, 6, 1, 3, 0, 16},
-	"C10": {25, 6, 8, 2, 2, 2, 20, 8, 8, 1, 0, 2, 16},
+	"C01":  {70, 6, 8, 2, 1, 3, 3, 1, 1, 1, 1, 1},
+	"C02":  {75, 5, 6, 2, 1, 4, 3, 0, 2, 0, 1, 1},
+	"C03":  {30, 6, 14, 8, 5, 22, 2, 0, 3, 0, 6, 4, 0, 1},
+	"C04":  {30, 14, 10, 4, 18, 6, 3, 2, 2, 3, 2, 3, 0, 1},
+	"C06":  {20, 45, 4, 1, 8, 4, 6, 1, 1, 2, 1, 1, 0, 3},
+	"C07":  {6, 25, 2, 0, 12, 1, 2, 10, 8, 30, 0, 0, 0, 3},
+	"C12":  {35, 10, 14, 5, 4, 10, 6, 6, 5, 3, 1, 1},
+	"C17":  {5, 8, 2, 0, 5, 1, 8, 36, 30, 5, 0, 0},
+	"C13":  {25, 10, 8, 3, 3, 6, 6, 3, 3, 1, 2, 2, 28},
+	"C05":  {30, 12, 10, 4, 8, 4, 2, 1, 1, 6, 1, 3, 0, 16},
+	"C10":  {25, 6, 8, 2, 2, 2, 20, 8, 8, 1, 0, 2, 16},
 	"C20X": {55, 6, 14, 6, 4, 5, 5, 0, 0, 1, 1, 3},
 }
 
@@ -1003,7 +1028,12 @@ func runSrvScenario(focus string, seed uint64, size int, t *Trace) error {
 	if r.Chance(30) {
 		start = uint32(r.Intn(3000))
 	}
-	if focus == "C20X" {
+	if focus == "C20X" && seed%6 == 5 {
+		// a fresh directory started years after genesis: the start-up catch-up has to rotate the window all the
+		// way to the clock (hundreds of empty weeks) before anything else happens
+		start = 2016*uint32(521+r.Intn(400)) + uint32(r.Intn(2016))
+		t.Count("first-start-long-after-genesis")
+	} else if focus == "C20X" {
 		// a server at the far end of the 32-bit timeslot range (C20: "all (now, timeslot) pairs at the uint32
 		// extremes ... up to the no-overflow bound"): the directory holds one archived week, so the window
 		// starts 2016 slots after it. The last offset whose window still ends below 2^32 is 4294963008; the
@@ -1121,6 +1151,18 @@ func runSrvScenario(focus string, seed uint64, size int, t *Trace) error {
 		if s.E.S == nil || s.Lost {
 			break
 		}
+		if (focus == "C01" || focus == "C02" || focus == "C06") && r.Chance(12) {
+			// the read-only views between the state changes: what they publish is the state of this moment
+			// (a view that answers from an earlier moment shows here, right after the change it missed)
+			switch {
+			case r.Chance(40):
+				s.Equipment()
+			case len(g.devs) > 0:
+				s.Recent(g.devs[r.Intn(len(g.devs))].key.Pub)
+			default:
+				s.Servers()
+			}
+		}
 		k := r.pick(w)
 		if !g.regDone && k != 9 && r.Chance(70) && focus != "C07" {
 			k = 9
@@ -1129,6 +1171,14 @@ func runSrvScenario(focus string, seed uint64, size int, t *Trace) error {
 		case 0:
 			if (focus == "C01" || focus == "C13") && r.Chance(4) {
 				g.opClockWhileQueued()
+			} else if (focus == "C01" || focus == "C13" || focus == "C12") && r.Chance(4) {
+				g.opUDPRepeat()
+			} else if focus == "C02" && len(g.devs) > 0 && r.Chance(20) {
+				// the published view of one device before and after a datagram (often one for that device)
+				dv := g.devs[r.Intn(len(g.devs))]
+				s.Recent(dv.key.Pub)
+				g.opDgram()
+				s.Recent(dv.key.Pub)
 			} else {
 				g.opDgram()
 			}
@@ -1142,6 +1192,9 @@ func runSrvScenario(focus string, seed uint64, size int, t *Trace) error {
 				s.Tick()
 			}
 		case 4:
+			if r.Chance(25) {
+				g.strayFiles()
+			}
 			if err := s.Restart(); err != nil {
 				// a failed start is an observation, the scenario ends here
 				t.DumpStats()
@@ -1181,7 +1234,15 @@ func runSrvScenario(focus string, seed uint64, size int, t *Trace) error {
 		case 8:
 			g.opMigrate()
 		case 9:
+			was := g.regDone
 			g.opRegister()
+			if !was && g.regDone && (focus == "C07" || focus == "C05") && r.Chance(25) {
+				// right after the registration, before anything else is stored
+				if err := g.opStartFault(); err != nil {
+					t.DumpStats()
+					return nil
+				}
+			}
 		case 10:
 			s.ImpactRound()
 		case 11:
@@ -1208,6 +1269,9 @@ func runSrvScenario(focus string, seed uint64, size int, t *Trace) error {
 	}
 	if (focus == "C12" || focus == "C13") && !s.Lost && s.E.S != nil && r.Chance(25) {
 		g.opPeerHang()
+	}
+	if focus == "C13" && !s.Lost && s.E.S != nil && r.Chance(12) {
+		g.opSlowSection()
 	}
 	if !s.Lost {
 		s.Snap()
@@ -1245,18 +1309,95 @@ func runSrvScenario(focus string, seed uint64, size int, t *Trace) error {
 				conns = append(conns, c)
 			}
 		}
+		// ... or, instead, a forwarded authorization that a listed server never answers: the handler that waits
+		// for it may be given up (the stop then reports that it ran out of time), but the stop has to return
+		pendingPeer := false
+		var peer *moodyPeer
+		pendDone := make(chan struct{})
+		if g.regDone && r.Chance(30) {
+			if p, err := newMoodyPeer(); err == nil {
+				as := server.AuthorizedServer{PublicKey: detKey(g.seed, 930).Pub, Location: myIP, HttpPort: p.port(), TcpPort: closedPortOnce(), UdpPort: closedPortOnce()}
+				as.GCAAuthorization = glow.Sign(as.SigningBytes(), s.E.GCA.Priv)
+				if s.AuthServer(as) == "ok" {
+					p.silent.Store(true)
+					ea := SignAuth(g.freshAuth(uint32(7000+r.Intn(500)), detKey(g.seed, 990)), s.E.GCA.Priv)
+					snap := s.E.S.VerifSnapshot()
+					s.Keys[ea.PublicKey] = true
+					s.oracle(snap.GCAKey, ea.SigningBytes(), ea.Signature)
+					_, had := snap.Equipment[ea.ShortID]
+					// either a new device or a new server is announced: both are forwarded to every listed server
+					as2 := server.AuthorizedServer{PublicKey: detKey(g.seed, 931).Pub, Location: myIP, HttpPort: closedPortOnce(), TcpPort: 1, UdpPort: 2}
+					as2.GCAAuthorization = glow.Sign(as2.SigningBytes(), s.E.GCA.Priv)
+					newServer := r.Chance(50)
+					if newServer {
+						s.oracle(snap.GCAKey, as2.SigningBytes(), as2.GCAAuthorization)
+						had = false
+						for _, x := range snap.Servers {
+							if x.PublicKey == as2.PublicKey {
+								had = true
+							}
+						}
+						go func() { s.E.PostJSON("/api/v1/authorized-servers", as2); close(pendDone) }()
+					} else {
+						go func() { s.E.PostJSON("/api/v1/authorize-equipment", ea); close(pendDone) }()
+					}
+					t1 := time.Now()
+					for p.heldCount() == 0 && time.Since(t1) < 3*time.Second {
+						time.Sleep(5 * time.Millisecond)
+					}
+					if p.heldCount() > 0 && !had {
+						// the order itself is done (stored and in memory); only its forwarding is still under way
+						if newServer {
+							s.authServerEmit(as2, "ok")
+						} else {
+							s.emit("srv.authorize a="+hx(ea.Serialize()), "new")
+						}
+						pendingPeer = true
+						peer = p
+						t.Count("shutdown-with-forwarding-to-a-silent-peer")
+					} else {
+						p.relent()
+						<-pendDone
+						p.ln.Close()
+						s.Snap()
+					}
+				} else {
+					p.ln.Close()
+				}
+			}
+		}
 		time.Sleep(20 * time.Millisecond)
 		t0 := time.Now()
-		err := s.E.Stop()
+		stopErr := make(chan error, 1)
+		srvEnv := s.E
+		go func() { stopErr <- srvEnv.Stop() }()
+		var err error
+		stuck := false
+		select {
+		case err = <-stopErr:
+		case <-time.After(12 * time.Second):
+			stuck = true
+		}
 		dt := time.Since(t0)
 		obs := "ok"
-		if err != nil {
+		switch {
+		case stuck:
+			obs = fmt.Sprintf("STUCK:the stop had not returned after %v", dt.Round(time.Millisecond))
+		case err != nil && !(pendingPeer && strings.Contains(err.Error(), "deadline exceeded")):
 			obs = "ERR:" + err.Error()
-		} else if dt > 5*time.Second {
+		case dt > 5*time.Second && !pendingPeer, dt > 8*time.Second:
 			obs = fmt.Sprintf("SLOW:%v", dt.Round(time.Millisecond))
 		}
 		for _, c := range conns {
 			c.Close()
+		}
+		if peer != nil {
+			peer.relent()
+			select {
+			case <-pendDone:
+			case <-time.After(5 * time.Second):
+			}
+			peer.ln.Close()
 		}
 		t.Count("shutdown-with-idle-connections")
 		t.Line("srv.shutdown idle=%d => %s", len(conns), obs)
